@@ -854,7 +854,7 @@ def explore_c12(ctx, res, replay_ops=None):
 
 import re  # noqa: E402
 
-PROPS["C12"] = dict(lean=["ChfVerif.Props.C12"], explore=explore_c12, race=True,
+PROPS["C12"] = dict(lean=["ChfVerif.Props.C12"], explore=explore_c12, race=True,   # gen: see below gen_table
                     trusted=["gin routing/JSON rendering, openapi client (h2c notification) are modelled; the notification sink is part of the harness"])
 
 
@@ -943,7 +943,7 @@ def explore_c10(ctx, res, replay_ops=None):
                 "every acknowledged reference then updated and released; non-trivial/distinct = returned references")
 
 
-PROPS["C10"] = dict(lean=["ChfVerif.Props.C10"], explore=explore_c10,
+PROPS["C10"] = dict(lean=["ChfVerif.Props.C10"], explore=explore_c10,   # gen: see below gen_table
                     trusted=["concurrency (atomic counter, LoadOrStore) is outside this sequential model — see C09"])
 
 
@@ -1141,6 +1141,11 @@ def gen_table(which, fname):
             log("Gen/%s regenerated (changed)" % fname)
     g.key = which
     return g
+
+
+# C10 (counter updates) and C12 (session-map look-ups under the mutex) have obligations over the lock-site tables too
+PROPS["C10"]["gen"] = [gen_table("locksites", "LockSites.lean")]
+PROPS["C12"]["gen"] = [gen_table("locksites", "LockSites.lean")]
 
 
 # ------------------------------------------------------------------ C13
